@@ -373,7 +373,8 @@ func subBytesRandom() mon.Sub {
 	}
 }
 
-var frameSizes = []int{0, 1, 2, 124, 125, 126, 127, 128, 65535, 65536, 65537, 70001}
+// the last five straddle 1 MiB, above which ws.ReadFrame reads the payload incrementally
+var frameSizes = []int{0, 1, 2, 124, 125, 126, 127, 128, 65535, 65536, 65537, 70001, 1<<20 - 1, 1 << 20, 1<<20 + 1, 1<<20 + 4097, 3<<20 + 17}
 
 func subFrames() mon.Sub {
 	return mon.Sub{
@@ -460,7 +461,7 @@ func main() {
 		Property: "C01",
 		Level:    "exploration",
 		Rule: "cases: (a) exhaustive grid Fin x Rsv x OpCode x Masked x 4 mask keys x 26 boundary lengths x 4 chunk plans, (b) random headers with log-uniform lengths, " +
-			"(c) all 65536 two-byte prefixes x every truncation / minimal / non-minimal / MSB form, (d) random byte strings, (e) pairs of whole frames across the 125/126 and 65535/65536 boundaries. " +
+			"(c) all 65536 two-byte prefixes x every truncation / minimal / non-minimal / MSB form, (d) random byte strings, (e) pairs of whole frames (back to back, so an over- or under-read corrupts the second) across the 125/126, 65535/65536 and 1 MiB boundaries. " +
 			"A case is non-trivial when both decoders and the encoder were compared with the independent reference codec; distinct = distinct (flag bits, length form, chunk plan) or (reference classification, length code, mask bit, plan) classes.",
 		Assumptions: []string{
 			"reference codec harness/ref written from RFC 6455 §5.2 is correct",
